@@ -83,8 +83,10 @@ func (s *Sim) loop() {
 				d := time.Millisecond << (2 * uint(e))
 				s.stalls++
 				tm := time.NewTimer(d)
+				stallStart := time.Now()
 				ok := s.waitIdle(st, end.C, tm.C)
 				tm.Stop()
+				s.stallDur += time.Since(stallStart)
 				if !ok {
 					s.horizonHit = true
 					return
